@@ -36,6 +36,7 @@ fn table(id: &str) -> Option<(RunFn, ReplayFn)> {
         "C11" => (props::c11::run_check, props::c11::replay),
         "C12" => (props::c12::run_check, props::c12::replay),
         "C13" => (props::c13::run_check, props::c13::replay),
+        "C14" => (props::c14::run_check, props::c14::replay),
         "C15" => (props::c15::run, props::c15::replay),
         _ => return None,
     })
